@@ -307,6 +307,45 @@ def run_late_callback(spec):
             del lc
             rc = None
             gc.collect()
+        # the peer changes the string coercion of a conversation (reconfigure) at the moment the listening side closes it:
+        # with the receiver thread held at every line of the handling of that request, the conversation is still forgotten
+        rl = imodel.function_lines(gb.Message._types[gb.Message.RECONFIGURE][1])
+        res.info["reconfigure_sweep_lines"] = len(rl)
+        for i, ln in enumerate([x for x in rl for _ in range(spec["reps"])]):
+            if res.enough():
+                break
+            lc, rc = lab.pair_newchannel_local() if i % 2 else tuple(reversed(lab.pair_newchannel_remote()))
+            side = lc.gateway._channelfactory
+            cid = lc.id
+            got = []
+            lc.setcallback(got.append, endmarker="end")
+            rc.send(i)
+            pairs.wait_until(lambda: i in got, 10.0)
+            pre.restart()
+            pre.set_sweep(ln[0], ln[1], 1, stall=0.08)
+            real_stderr, sys.stderr = sys.stderr, io.StringIO()
+            try:
+                rc.reconfigure(py2str_as_py3str=True, py3str_as_py2str=bool(i % 3 == 0))
+                time.sleep(rng.choice((0.0, 0.01, 0.03)))
+                lc.close()
+                pre.off()
+                forgotten = pairs.wait_until(lambda: cid not in side._callbacks, 3.0)
+            finally:
+                pre.off()
+                sys.stderr = real_stderr
+            if pre.fired:
+                res.count("reconfigure_sweep_fired")
+            res.count("reconfigure_vs_close_runs")
+            res.case(core.h64("reconfigure-vs-close", ln, i % 2))
+            if not forgotten:
+                res.violation("channel-table-grew:callbacks", f"listener closed its end while the peer's reconfigure request was handled (receiver held at line {ln[1]}): its callback entry is still registered")
+            try:
+                rc.close()
+            except OSError:
+                pass
+            del lc
+            rc = None
+            gc.collect()
         if not chanlab.quiesce(lambda: tables(lab) == base, 5.0):
             res.violation("channel-table-grew:callbacks" if tables(lab)[1] != base[1] or tables(lab)[3] != base[3] else "channel-table-grew:channels",
                           f"after {len(todo)} setcallback-meets-end runs: {base} -> {tables(lab)}")
